@@ -66,6 +66,13 @@ def js_round(x: float, ndigits: int = 0) -> float:
             return math.ceil(x * multiplier - 0.5) / multiplier
 
 
+# ECMAScript WhiteSpace and LineTerminator code points (what String.prototype.trim removes)
+JS_WHITESPACE = (
+    "\t\n\x0b\x0c\r \xa0\u1680\u2000\u2001\u2002\u2003\u2004\u2005\u2006"
+    "\u2007\u2008\u2009\u200a\u2028\u2029\u202f\u205f\u3000\ufeff"
+)
+
+
 def to_integer_or_infinity(value: JSValue) -> Union[int, float]:
     """ECMAScript ToIntegerOrInfinity: NaN -> 0, +-Infinity kept, otherwise truncate."""
     n = to_number(value)
@@ -1958,13 +1965,13 @@ class VM:
             return s.upper()
 
         def trim(*args):
-            return s.strip()
+            return s.strip(JS_WHITESPACE)
 
         def trimStart(*args):
-            return s.lstrip()
+            return s.lstrip(JS_WHITESPACE)
 
         def trimEnd(*args):
-            return s.rstrip()
+            return s.rstrip(JS_WHITESPACE)
 
         def concat(*args):
             result = s
